@@ -66,10 +66,13 @@ def grid_dataset(ctx, conv, shape, as_coords=True):
         # zero is a legal fill value (category / flag variables)
         'zero': ((yd, xd), clipcommon.ids((ny, nx), 'uint8', 1), {'_FillValue': numpy.uint8(0)}),
         'mzero': ((yd, xd), clipcommon.ids((ny, nx), 'int16', 1), {'missing_value': numpy.int16(0)}),
+        # instants and durations hold missing values too (NaT)
+        'stamp': ((yd, xd), (numpy.datetime64('2021-03-01T00:00', 'ns') + numpy.arange(ny * nx) * numpy.timedelta64(1, 'h')).reshape(ny, nx)),
+        'age': ((xd, yd), (numpy.arange(1, ny * nx + 1) * numpy.timedelta64(45, 'm')).astype('timedelta64[ns]').reshape(nx, ny)),
         'clock': (('t',), numpy.array([5.0, 6.0]), {'long_name': 'clock'}),
         'scalar': ((), numpy.float64(7.5)),
     }
-    kinds = {'face': dict(dims=(yd, xd), shape=(ny, nx), float=['temp', 'botz', 'mid'], id='cellid', intfill=[('flag', -99), ('miss', -1), ('zero', 0), ('mzero', 0)])}
+    kinds = {'face': dict(dims=(yd, xd), shape=(ny, nx), float=['temp', 'botz', 'mid', 'stamp', 'age'], id='cellid', intfill=[('flag', -99), ('miss', -1), ('zero', 0), ('mzero', 0)])}
     if conv == 'cf1d':
         # stored bounds: the cell geometry is explicit, so it can be compared before and after clipping
         # (and a clipped axis of length one still has a width)
